@@ -230,6 +230,11 @@ func (c *Conn) run(kind, sqlText string, args []interface{}, binary bool) (*resu
 	if f != nil {
 		switch f.Kind {
 		case "error":
+			if class == "commit" && c.txn != nil && c.txn.xaState == "" {
+				// a COMMIT that fails on the server ends the transaction: it is rolled back
+				s.rollbackTxn(c.txn)
+				c.txn = nil
+			}
 			je.Err = fmt.Sprintf("injected %d", f.Num)
 			je.Seq = s.logf("DB c%d %s %s%s -> injected error %d", c.id, kind, oneLine(sqlText), fmtArgs(args), f.Num)
 			je.InTxn = c.txn != nil && c.txn.explicit
